@@ -10,12 +10,17 @@ CHECKS = {
              "flushable.Wrap over memorydb/LevelDB/Pebble, flushable over flushable and LazyFlushable, comparing after each step "
              "Get/Has for all probe keys, 36 (prefix,start) iterations incl. 0xff-boundary prefixes, NotFlushedPairs, the content "
              "of the underlying store and every live snapshot with the values TLC computed; random walks run on long-lived stores. "
+             "A batch is a buffer of its own: the state variable bprev marks that the store's one long-lived batch object has been "
+             "written and Reset since the last flush/drop, TLC checks ReusedBatchIsBuffered (queueing on it changes nothing the "
+             "store, its snapshots or the underlying store show), and the harness realises such states by writing the overlay "
+             "through that very batch object (Put.. Write Reset Put.. histories, values of equal length and different content). "
              "Iterators held open across writes/flushes/drops are recorded from the real store and validated by TLC against "
              "FlushableIter.tla (ascending in-range keys, every yielded pair was in the view between creation and yield, no panic).",
         note="Exhaustive only within the bounded model (6-7 keys over the alphabet 0x00,'a','b',0xff, values '' and '1', batches of "
-             "<=2-4 operations, 1-2 snapshot slots, depth 2-3 from 5 designed states); deeper histories are sampled by TLC simulation "
+             "<=2-4 operations, values '', '1', '2' in batches, 1-2 snapshot slots, depth 2-3 from 7 designed states); deeper histories are sampled by TLC simulation "
              "and random walks. Held-open iterators are checked only for the weak clauses the statement supports. Pre-states are built "
-             "by writing the underlying store directly. TLC, SANY and the Json/IOUtils modules are trusted.",
+             "by writing the underlying store directly and the overlay through Put/Delete or the store's batch object. Vacuity guards "
+             "count the specification's transitions from reused-batch states and the real batch objects' reuse operations. TLC, SANY and the Json/IOUtils modules are trusted.",
         technique="TLA+ spec + TLC state graph and simulation, edge replay (pattern R) into the Go stores; TLC trace validation (pattern T) for held-open iterators",
         design_ref="DESIGN.md section 5 (C22), section 4.2, section 3 patterns R and T",
     ),
@@ -38,8 +43,9 @@ CHECKS = {
     ),
     "C24": dict(
         category="model_checking",
-        text="specs/kv/Table.tla models two tables over one underlying store for 7 prefix pairs (empty prefix, 0x00, 'a', 'a\\xff', "
-             "'\\xff', '\\xff\\xff', adjacent ranges, prefix-of-one-another, and a NewTable-nested pair): table view = restriction to "
+        text="specs/kv/Table.tla models two tables over one underlying store for 9 prefix pairs (empty prefix, 0x00, 'a', 'a\\xff', "
+             "'\\xff', '\\xff\\xff', adjacent ranges, prefix-of-one-another, and three NewTable-nested pairs, two of them with "
+             "parent/own prefixes that do not commute and one where own+parent is a key the store holds): table view = restriction to "
              "the prefix with the prefix removed, writes/batches/replays into either table/snapshots through a table, direct writes to "
              "the underlying store. TLC checks on the specification that writes stay inside the prefix and that independent tables "
              "never observe each other, and every explored transition is replayed on real tables over a recorder over "
@@ -50,7 +56,7 @@ CHECKS = {
              "table, a sibling table and the store underneath, with prefix/key slices that have spare capacity and caller-owned "
              "buffers overwritten after each call; an iterator that saw no write since its creation must yield exactly the view.",
         note="Exhaustive only within the bounded model (3-4 table keys incl. the empty key, 3 noise keys, depth 2 from 2-4 designed "
-             "states per prefix pair). Only whole-table compaction is judged. The recorder counts batch keys as written when the batch "
+             "states per prefix pair). Only whole-table compaction is judged. Vacuity guards count snapshot states / real snapshot reads through the nested table of a non-commuting pair. The recorder counts batch keys as written when the batch "
              "is written.",
         technique="TLA+ spec + TLC state graph, edge replay (pattern R) into real tables over a recording store; TLC trace validation of Compact ranges",
         design_ref="DESIGN.md section 5 (C24), section 4.2, section 3 patterns R and T",
